@@ -15,7 +15,7 @@ func propC03() Property {
 		ID: "C03",
 		Explanation: "R1 (clip guard): the requested end is replaced by (next outbound − 1) exactly under {end = 0 ∧ BeginString ≥ FIX.4.2} ∨ {end = 999999 ∧ BeginString ≤ FIX.4.2} ∨ {end ≥ next outbound}, and the replay runs from the requested begin to that end. " +
 			"R2 (stamping order): the replay stamper sets PossDupFlag(43)=Y and OrigSendingTime(122) ← SendingTime(52) read BEFORE tag 52 is rewritten, then rewrites tag 52. R3: a stored message is re-sent only when it is not administrative and the application's resend callback agreed; otherwise its number is covered by a gap fill. " +
-			"R4 (body identity): replayed bytes are buildWithBodyBytes(bodyBytes of the message parsed from the stored bytes), under its original MsgSeqNum (tag 34 is not touched by the stamper). R5 (gap fill): SequenceReset(4) with MsgSeqNum(34) ← begin parameter, NewSeqNo(36) ← end parameter, GapFillFlag(123)=Y, PossDupFlag(43)=Y; gap fills are emitted before a re-sent message when numbers were skipped and after the loop for the tail, with NewSeqNo = the next number replayed; the end of the tail gap fill is a cursor the replay callback advances past EVERY message it returns nil for (re-sent, administrative or declined), to that message's number + 1. R6 (what bodyBytes is): in the message parser the mark that ends the body (trailerBytes ← remaining bytes) is moved only after a field that was classified as a body field or group member — never after the header/trailer field that terminates a repeating group — so the bytes replayed as the body exclude CheckSum/Signature; and conversely every extracted field that is filed into the Body has moved the mark past itself first, so the replayed body does not lose its last field. R7 (shared with C02-R5): the replay — the iteration and everything the replay function sends after it — runs under resendMutex(W).",
+			"R4 (body identity): replayed bytes are buildWithBodyBytes(bodyBytes of the message parsed from the stored bytes), under its original MsgSeqNum (tag 34 is not touched by the stamper). R5 (gap fill): SequenceReset(4) with MsgSeqNum(34) ← begin parameter, NewSeqNo(36) ← end parameter, GapFillFlag(123)=Y, PossDupFlag(43)=Y; gap fills are emitted before a re-sent message when numbers were skipped and after the loop for the tail, with NewSeqNo = the next number replayed; the end of the tail gap fill is a cursor the replay callback advances past EVERY message it returns nil for (re-sent, administrative or declined), to that message's number + 1. R6 (what bodyBytes is): in the message parser the mark that ends the body (trailerBytes ← remaining bytes) is moved only after a field that was classified as a body field or group member — never after the header/trailer field that terminates a repeating group — so the bytes replayed as the body exclude CheckSum/Signature; and conversely every extracted field that is filed into the Body has moved the mark past itself first, so the replayed body does not lose its last field. R7 (shared with C02-R5): the replay — the iteration and everything the replay function sends after it — runs under resendMutex(W). R8 (shared with C16/C17): every store walks the whole requested range (holes are skipped, the callback's error is the only early exit) and the file store appends index lines at the end of the index file.",
 		NotDecided: "contiguity of coverage as arithmetic over the stored history (the seqNum/nextSeqNum bookkeeping over all histories); byte-for-byte identity of the transmitted frame.",
 		Rules: []RuleDef{
 			{ID: "C03-R1", Desc: "ResendRequest range clipping", Min: 2, Run: c03R1},
@@ -25,6 +25,7 @@ func propC03() Property {
 			{ID: "C03-R5", Desc: "gap-fill field binding and placement", Min: 6, Run: c03R5},
 			{ID: "C03-R6", Desc: "the end-of-body mark moves only over body fields", Min: 3, Run: c03R6},
 			{ID: "C03-R7", Desc: "the whole reply to a ResendRequest is sent under the resend lock (= C02-R5)", Min: 3, Run: c02R5},
+			{ID: "C03-R8", Desc: "every store iterates the whole requested range; file index appended at its end (= C16-R3, C16-R13, C17-R2)", Min: 4, Run: func(c *Ctx) { c16R3(c); c16R13(c); c17R2(c) }},
 		},
 	}
 }
